@@ -135,9 +135,31 @@ Json::Value gen() {
   int nops = R(1, 25);
   for (int i = 0; i < nops; i++) {
     Json::Value op(Json::objectValue);
-    int k = W({34, 8, 6, 6, 10, 5, 22, 9});
+    int k = W({31, 8, 6, 6, 9, 6, 19, 7, 4, 4});
     std::string name = oneOf(kNames);
     switch (k) {
+      case 9: {
+        // the directory comes back with a file in it, and that file changes again while the main loop's
+        // tick is scanning the new directory
+        op = genWrite(serial, name);
+        op["op"] = "recreate_race";
+        op["name"] = name;
+        Json::Value first = genWrite(serial, name);
+        first["kind"] = "valid";
+        op["first"] = first;
+        op["what"] = P(70) ? "write" : "delete";
+        op["delay_us"] = R(0, 6000);
+        op["keep_absent_ticks"] = R(1, 2);
+        break;
+      }
+      case 8:
+        // a file event handled by the watcher thread while the main loop is inside its tick
+        op = genWrite(serial, name);
+        op["op"] = "tick_race";
+        op["name"] = name;
+        op["what"] = P(70) ? "write" : "delete";
+        op["delay_us"] = R(0, 4000);
+        break;
       case 0:
         op = genWrite(serial, name);
         op["op"] = "write";
@@ -175,6 +197,8 @@ Json::Value gen() {
     }
     c["ops"].append(op);
   }
+  // compiling a drop-in takes a while (slow plugin initialisation): widens every compile window
+  if (P(35)) c["init_sleep_us"] = R(200, 4000);
   return c;
 }
 
@@ -222,7 +246,8 @@ Verdict run(const Json::Value& c) {
   std::map<std::string, FileModel> model;
   long stamp = 0;
   bool recreated = false;
-  bool sawRewriteOfActive = false, sawWrongShape = false;
+  bool sawRewriteOfActive = false, sawWrongShape = false, sawTickRace = false;
+  scripts.init_sleep_us = c.get("init_sleep_us", 0).asInt();
   int eventsSinceTick = 0, maxEventsBetweenTicks = 0;
   auto applyWrite = [&](const Json::Value& w, const std::string& name) {
     FileModel& f = model[name];
@@ -293,7 +318,61 @@ Verdict run(const Json::Value& c) {
       std::string path = dir + "/" + name;
       struct stat st;
       bool dirExists = ::stat(dir.c_str(), &st) == 0;
-      if (o == "tick") {
+      if (o == "recreate_race") {
+        std::string rm = "rm -rf '" + dir + "'";
+        if (system(rm.c_str()) != 0) {
+        }
+        for (auto& kv : model) kv.second.present = false;
+        for (int k = 0; k < op["keep_absent_ticks"].asInt(); k++) tick();
+        ::mkdir(dir.c_str(), 0755);
+        recreated = true;
+        writeFilePieces(path, content(op["first"]), 1);
+        applyWrite(op["first"], name);
+        std::string what = op["what"].asString();
+        std::string data = content(op);
+        int delay = op["delay_us"].asInt();
+        int savedSleep = scripts.init_sleep_us.load();
+        if (savedSleep < 3000) scripts.init_sleep_us = 3000; // the scan's compile takes a few ms
+        std::thread racer([&]() {
+          std::this_thread::sleep_for(std::chrono::microseconds(delay));
+          if (what == "write") {
+            writeFilePieces(path, data, 1);
+          } else {
+            ::unlink(path.c_str());
+          }
+        });
+        tick();
+        racer.join();
+        scripts.init_sleep_us = savedSleep;
+        if (what == "write") {
+          applyWrite(op, name);
+        } else {
+          model[name].present = false;
+        }
+        eventsSinceTick += 2;
+        sawTickRace = true;
+      } else if (o == "tick_race" && dirExists) {
+        std::string what = op["what"].asString();
+        std::string data = content(op);
+        int delay = op["delay_us"].asInt();
+        std::thread racer([&]() {
+          std::this_thread::sleep_for(std::chrono::microseconds(delay));
+          if (what == "write") {
+            writeFilePieces(path, data, 1);
+          } else {
+            ::unlink(path.c_str());
+          }
+        });
+        tick();
+        racer.join();
+        if (what == "write") {
+          applyWrite(op, name);
+        } else {
+          model[name].present = false;
+        }
+        eventsSinceTick++;
+        sawTickRace = true;
+      } else if (o == "tick") {
         tick();
       } else if (o == "yield") {
         std::this_thread::sleep_for(std::chrono::microseconds(op["us"].asInt()));
@@ -435,6 +514,8 @@ Verdict run(const Json::Value& c) {
   if ((sawRewriteOfActive && recreated) || maxEventsBetweenTicks >= 3) v.nontrivial = true;
   if (recreated) v.labels.push_back("dir_recreated");
   if (sawWrongShape) v.labels.push_back("wrong_shape_json");
+  if (sawTickRace) v.labels.push_back("event_during_tick");
+  scripts.init_sleep_us = 0;
   if (sawRewriteOfActive) v.labels.push_back("rewrite_of_active");
   if (c.isMember("preexisting")) v.labels.push_back("preexisting_files");
   return v;
